@@ -135,3 +135,42 @@ package hap
 //@   modifies s.nextCryptographer
 //@   ensures inv: sessInv(s)
 //@   ensures unchanged(s.cryptographer)
+
+// ---- connections (C06, C08, C09)
+// curEnc(con): the encrypter of the connection's session as seen by getEncrypter (nil while the connection is not verified)
+//@ ghost curEnc(ref) iface
+//@ invoke "github.com/brutella/hc/hap.Context.GetSessionForConnection"(ctx, c) (s)
+//@   pure
+//@ invoke "github.com/brutella/hc/hap.Context.DeleteSessionForConnection"(ctx, c)
+//@   modifies heapof("map"), heapof("iface")
+
+// every encrypted write takes the frame counter and reaches the socket under the connection's write mutex (C08; static
+// dominance check on the real SSA, see DESIGN.md: interleavings themselves are not explored)
+//@ locked C08 (*github.com/brutella/hc/hap.Connection).EncryptedWrite field writeMutex calls Encrypt, Write
+
+// assumed: curEnc is defined as what getEncrypter returns (a read of the context map and the session)
+//@ func (con *Connection) getEncrypter() (e)
+//@   trusted
+//@   requires con != nil && con.context != nil
+//@   pure
+//@   ensures e == curEnc(con)
+//@ func (con *Connection) getDecrypter() (d)
+//@   requires con != nil && con.context != nil
+//@   modifies heap, verified
+
+//@ func (con *Connection) EncryptedWrite(b) (n, err)
+//@   requires con != nil && con.connection != nil && con.context != nil
+//@   requires enc: curEnc(con) != nil && ref(curEnc(con)) != ref(con)
+//@   requires unlocked: !held(addr(con.writeMutex))
+//@   modifies heap, held(addr(con.writeMutex)), enccnt, sink(con.connection), wcount(con.connection)
+//@   ensures lock: !held(addr(con.writeMutex))
+//@   ensures wire: err == nil ==> sink(con.connection) == cat(old(sink(con.connection)), enc_pre(enckey(curEnc(con)), old(enccnt(curEnc(con))), old(seq(b)), (len(b) + 1023) / 1024)) && enccnt(curEnc(con)) == old(enccnt(curEnc(con))) + (len(b) + 1023) / 1024
+//@   ensures writer: 0 <= n && n <= len(b) && (err == nil ==> n == len(b))
+
+//@ func (con *Connection) Write(b) (n, err)
+//@   requires con != nil && con.connection != nil && con.context != nil
+//@   requires enc: ref(curEnc(con)) != ref(con) && !held(addr(con.writeMutex))
+//@   modifies heap, held(addr(con.writeMutex)), enccnt, sink(con.connection), wcount(con.connection)
+//@   ensures writer: 0 <= n && n <= len(b) && (err == nil ==> n == len(b))
+//@   ensures plain: curEnc(con) == nil && err == nil ==> sink(con.connection) == cat(old(sink(con.connection)), old(seq(b)))
+//@   ensures sealed: curEnc(con) != nil && err == nil ==> sink(con.connection) == cat(old(sink(con.connection)), enc_pre(enckey(curEnc(con)), old(enccnt(curEnc(con))), old(seq(b)), (len(b) + 1023) / 1024))
